@@ -41,7 +41,7 @@ CHECKS = {
  "C12": dict(cat="exploration", tech="bounded-exhaustive enumeration of all ordered page trees with <=7/8 nodes x leaf typings x direct/indirect Kids x id orders, depth chains at the documented limit, and every single malformed mutation of every tree with <=5/6 nodes; Count-extreme cases in rlimited child processes",
    text="page_iter() and get_pages() must equal the harness's own depth-first leaf list numbered 1..n on every valid tree; on every malformed variant the iterator must finish within objects.len()+1 calls, yield only existing /Type /Page dictionaries and never panic, abort or allocate by untrusted counts.",
    note="'valid' means at most 256 pending sibling lists (the code's documented limit); beyond that only termination and type-safety are required"),
- "C13": dict(cat="exploration", tech="deviation-bounded exhaustive typed-chaos exploration: every dictionary entry / array element / object of a query-complete skeleton document x 18 value shapes + a reference to every object (all link cycles), pairs in thorough; all 22 read-only query groups per case in isolated worker processes with time, stack and allocation budgets",
+ "C13": dict(cat="exploration", tech="deviation-bounded exhaustive typed-chaos exploration: every dictionary entry / array element / object of a query-complete skeleton document x 44 value shapes (kinds, extremes, malformed strings, long strings, reference chains of 126..200 hops) + a reference to every object (all link cycles), pairs in thorough; all 22 read-only query groups per case in isolated worker processes with time, stack and allocation budgets",
    text="Each mutant document is built in a worker process and every public read-only query is called; the outcome must be a return (value or error) within 2 s, 8 MiB stacks and the allocation allowance; panics, aborts (stack overflow), hangs and oversized allocation requests are violations, pinpointed per query and replayed in a fresh worker.",
    note="the skeleton fixes which keys exist; keys the query code reads that the skeleton lacks are listed in the evidence; budgets are thresholds chosen by the harness (DESIGN §2.5)"),
  "C14": dict(cat="exploration", tech="bounded-exhaustive enumeration of content operations: all byte pairs + sharp k-tuples in string/name operands (6 contexts), 153 operators x all operand tuples of length <=3 over 14 kinds, all operand trees <=3 nodes, all operation sequences of length <=2/<=3 over an 84-entry adjacency menu, stratified reals, 960 inline-image geometries x data strings",
@@ -63,6 +63,25 @@ CHECKS = {
    text="For each document configuration every failure position (all byte offsets) x {persistent error, Ok(0), transient error} and every single-Interrupted placement and chunking is executed on the real save_to; Err must be returned, delivered bytes must be a prefix of the healthy output, bytes must not depend on chunking, a later save must be valid (strict reader + loader).",
    note="the scripted sink models prefix-then-fail, fail-once and short-write behaviours; documents are a small menu (bounded), not all documents"),
 }
+
+# families added after the seeded-change rounds (DESIGN 10.4); appended to the technique text
+EXTRA = {
+ "C01": "every run starts from a non-initial reader state (130 rejected loads on every thread); sequences of <= 4/5 saves and edits on one Document value; the two double-rounding hard reals",
+ "C02": "every file also through load_from (short reads), IncrementalDocument loaders and the path-taking loaders incl. load_filtered (entry-point agreement); a 300-object document whose compressed object stream exceeds 32 KiB; 3- and 4-revision documents",
+ "C03": "Document::save(path) over fresh and existing longer files; incremental chains on a base file written by the reference writer; same-Document resave sequences; 2^16 / 2^24 offset-width boundary files",
+ "C04": "18 encrypted seeds whose empty user password authenticates (decryption on load); every mutant of a classic-table file also in a structure-aware form with repaired cross-reference offsets; degenerate CMaps; rayon default worker stacks",
+ "C05": "transition 'encrypt with the kept state'; nesting ladders with a string at every depth to 127 (loadable) / 1100 (in memory); 8 shapes of the trailer ID; 16 Crypt-parameter shapes (array form, absent)",
+ "C06": "direction K (kept state re-encoded and re-encrypted, every field compared with the first protection); ID shapes, nesting ladders, Crypt-parameter array forms; boundary salts of Algorithm 2.B; passwords straddling byte 127",
+ "C07": "entry-point agreement on every history file; producer L (front-placed cross-reference section); member-order variants; 7 kinds of white space after the final %%EOF; histories of 127..130 (300) appended revisions",
+ "C08": "history-independence part (hostile preludes); split-independence family (pools of 1..16 threads and the sequential build must agree on 644 classic-table files with a trouble pair at every position); misnumbered-slot files (free-running, labelled sampling)",
+ "C09": "Flate size families in both directions (ratios beyond 1024:1, plain and encoded lengths around 2^12..2^23, incompressible data, every zlib header); written-size oracle on every compress transition",
+ "C10": "deep-nesting family (references below 1..2000 container levels), history family (earlier renumber / delete / add / save / stale max_id), many-object graphs",
+ "C12": "history pairs and single edits through the public fields between two enumerations, mutating-method steps, reference chains of 0..128 hops on every link, wide trees",
+ "C14": "history-independence part (952 hostile preludes x repetitions x thread kinds), nesting x parenthesis grid, long operands",
+ "C15": "all 3-sequences over an 80-entry overlap menu and 4-sequences over a sub-menu, array length profiles, mapping-less and BOM-target CMaps",
+ "C16": "every string length 0..2100 around an astral character, long byte strings through the tables, fonts with a predefined encoding and a partial ToUnicode, document sequences on one thread",
+ "C19": "bursts of 2..1000 consecutive Interrupted results at every call; save(path) over fresh, shorter and longer existing files",
+}
 def main():
     checks = []
     for pid in ALL:
@@ -75,7 +94,7 @@ def main():
             "evidence_file": "evidence/%s.json" % pid,
             "replay_cmd_template": "./check %s --replay {path}" % pid,
             "engine": "vharness",
-            "technique": c["tech"],
+            "technique": c["tech"] + ("; added after the seeded-change rounds: " + EXTRA[pid] if pid in EXTRA else ""),
             "level_claimed": {"category": c["cat"], "text": c["text"], "design_ref": "DESIGN.md §4 %s" % pid},
             "level_note": c["note"],
         })
